@@ -93,9 +93,24 @@ def oracle(ctx, meta, X, y, cols_sorted, resp, flags):
             ctx.violation("row-not-an-input-sample", f"result row {r} (response {y[r]}) is not an input sample with "
                           "its finite entries unchanged, in order", rep)
             return
+    # exactly the rows without NaN (after the imputation of zero-rated samples) are kept - and only then
+    respa = np.array(resp)
+    keep = np.ones(len(resp), dtype=bool)
     if flags["rm"]:
-        # exactly the rows without NaN after imputation are kept
-        pass
+        for j in range(src.shape[1]):
+            col = src[:, j]
+            nan = np.isnan(col)
+            zero = respa == 0
+            fill = np.nan
+            if flags["impute"] and np.any(zero & nan) and np.any(zero & ~nan):
+                with np.errstate(all="ignore"):
+                    fill = np.mean(col[zero & ~nan])
+            for i in range(len(resp)):
+                if nan[i] and not (zero[i] and not np.isnan(fill)):
+                    keep[i] = False
+    if list(respa[keep]) != list(y):
+        ctx.violation("wrong-rows-kept", f"{int(keep.sum())} samples have no NaN after imputation but {len(y)} were "
+                      f"returned (responses {list(y)[:10]} vs expected {list(respa[keep])[:10]})", rep)
 
 
 def weights_oracle(ctx, ys, w):
